@@ -174,8 +174,9 @@ def foreign_traces(ctx, art):
 
 def race_lines(ctx):
     if ctx.tier == "thorough":
-        return ["meet %d 400 40000" % ctx.seed, "meet %d 200 1200" % (ctx.seed + 1), "race %d 6000 6" % ctx.seed]
-    return ["meet %d 60 40000" % ctx.seed, "race %d 800 4" % ctx.seed]
+        return ["meet %d 400 40000" % ctx.seed, "meet %d 200 1200" % (ctx.seed + 1), "bwmeet %d 1500 400" % ctx.seed,
+                "race %d 6000 6" % ctx.seed]
+    return ["meet %d 60 40000" % ctx.seed, "bwmeet %d 200 400" % ctx.seed, "race %d 800 4" % ctx.seed]
 
 
 def race_run(ctx, exe, lines, tag="race"):
@@ -207,6 +208,12 @@ def race_run(ctx, exe, lines, tag="race"):
             "%d race detector reports while a stored request was released and retransmitted concurrently (a message is read or "
             "written after its release): %s" % (nrep, ",".join(funcs)), {"input": lines, "race": True, "report": log[:4000]}))
         return nrep
+    bad = [(l, o) for l, o in zip(lines, out) if o.startswith("bad ")]
+    if bad:
+        for l, o in bad:
+            ctx.violations.append(common.Violation("ownership", "C12:race:" + o.split()[1], "%s: %s (the library used the application's "
+                                                   "request body after the request call had returned)" % (l, o), {"input": [l], "race": True}))
+        return len(bad)
     if p.returncode != 0 or len(out) != len(lines) or not all(o.startswith("ok ") for o in out):
         first = next((x for x in log.splitlines() if x.startswith("panic:") or "fatal error" in x), "")
         if first:
